@@ -35,7 +35,9 @@ func (c03) Plan(tier string, seed int64) []mon.Workload {
 	if tier == "thorough" {
 		n = 150000
 	}
-	return []mon.Workload{{Name: "programs", N: n}, {Name: "loop-scope", N: int64(len(c03Loops) * len(c03Bodies) * len(c03Vars)), Exhaustive: true}}
+	return []mon.Workload{{Name: "programs", N: n}, {Name: "loop-scope", N: int64(len(c03Loops) * len(c03Bodies) * len(c03Vars)), Exhaustive: true},
+		{Name: "branch-table", N: 8 * 16 * 2 * 3, Exhaustive: true},
+		{Name: "map-iteration", N: n / 10}}
 }
 
 // loop-scope: every loop form x body template x variable kind. The body
@@ -96,6 +98,68 @@ func c03LoopScope(i int64) progCase {
 	return pc
 }
 
+// branch-table: every truth assignment of a three-condition if/elif/elif
+// chain x every choice of empty / non-empty blocks x with / without else x
+// three placements (top level, loop body with a break in the else, nested in
+// a branch). Exactly the first branch whose condition holds runs - also when
+// its block is empty - and no later condition is evaluated.
+var c03Falsy = []string{"0", "0.0", "\"\"", "nil", "[]", "{}", "false", "f0"}
+var c03Truthy = []string{"1", "-1", "0.5", "\"x\"", "[0]", "{\"a\": 0}", "true", "f1"}
+
+func c03BranchTable(i int64) progCase {
+	place := int(i % 3)
+	i /= 3
+	withElse := i%2 == 1
+	i /= 2
+	empt := int(i % 16)
+	truth := int(i / 16)
+	cond := func(n int) string {
+		pool := c03Falsy
+		if truth&(1<<n) != 0 {
+			pool = c03Truthy
+		}
+		// the condition is wrapped in a probe so that its evaluation is an event
+		return "t(" + fmt.Sprint(n) + ", " + pool[(int(i)+3*n+place)%len(pool)] + ")"
+	}
+	block := func(n int) string {
+		if empt&(1<<n) != 0 {
+			return "{}"
+		}
+		if place == 1 && n == 3 {
+			return "{ p(\"b3\")\n break }"
+		}
+		return "{ p(\"b" + fmt.Sprint(n) + "\")\n r = " + fmt.Sprint(n) + " }"
+	}
+	chain := "if " + cond(0) + " " + block(0) + " elif " + cond(1) + " " + block(1) + " elif " + cond(2) + " " + block(2)
+	if withElse {
+		chain += " else " + block(3)
+	}
+	chain += "\n"
+	var text string
+	switch place {
+	case 0:
+		text = "r = \"none\"\n" + chain + "p(r)\n"
+	case 1:
+		text = "r = \"none\"\nfor n = 0; n < 2; n = n + 1 {\n" + chain + "p(n, r)\n}\np(r, n)\n"
+	default:
+		text = "r = \"none\"\nif f1 {\n" + chain + "p(\"inner\", r)\n} else {}\np(r)\n"
+	}
+	o := drive.Parse("branch-table", text)
+	if o.Err != nil {
+		panic("c03: branch-table program does not parse: " + text + ": " + o.Err.Error())
+	}
+	l, err := gt.FromStmts(o.Stmts)
+	if err != nil {
+		panic(err)
+	}
+	stmts := gt.CloneStmts(l)
+	pc := progCase{Stmts: stmts, Src: gt.Print(stmts, nil)}
+	pc.Points = []*ref.Point{
+		ref.NewPoint("m", nil, map[string]any{"f0": int64(0), "f1": "yes"}, time.Unix(1700000000, 0)),
+	}
+	return pc
+}
+
 type progCase struct {
 	Stmts  []*gt.T
 	Src    string
@@ -126,6 +190,12 @@ func (c03) build(c *mon.Ctx) progCase {
 func (k c03) Describe(c *mon.Ctx, workload string, i int64) any {
 	if workload == "loop-scope" {
 		return map[string]any{"source": c03LoopScope(i).Src}
+	}
+	if workload == "branch-table" {
+		return map[string]any{"source": c03BranchTable(i).Src}
+	}
+	if workload == "map-iteration" {
+		return map[string]any{"source": buildMapIter(c.R).Src}
 	}
 	pc := k.build(c)
 	pts := []string{}
@@ -163,6 +233,14 @@ func nestedAssign(l []*gt.T) (loopOrBranch, nested bool) {
 func (k c03) Run(c *mon.Ctx, workload string, i int64) {
 	if workload == "loop-scope" {
 		runV1Compare(c, c03LoopScope(i), "c03.p")
+		return
+	}
+	if workload == "branch-table" {
+		runV1Compare(c, c03BranchTable(i), "c03.p")
+		return
+	}
+	if workload == "map-iteration" {
+		runMapIter(c, false)
 		return
 	}
 	pc := k.build(c)
